@@ -902,7 +902,7 @@ def taint(f, local):
                 if not hit:
                     continue
                 p = s["p"]
-                if len(p) == 1 or all(isinstance(e, str) and (e.startswith("v:") or e.startswith("f:?") or e.startswith("f:.") or e.startswith("f:std::option")) for e in p[1:]):
+                if len(p) == 1 or all(isinstance(e, str) and (e.startswith("v:") or e.startswith("f:?") or e.startswith("f:.") or e.startswith("f:core::option")) for e in p[1:]):
                     if p[0] not in T:
                         T.add(p[0])
                         changed = True
@@ -920,3 +920,10 @@ def taint(f, local):
 def arg_hits(t, T):
     """indices of call arguments that are (moves/copies of) tainted locals"""
     return [i for i, a in enumerate(t["args"]) if a[0] in ("c", "m") and a[1][0] in T]
+
+
+def latest(config="default"):
+    """newest fact directory in the cache (debug helper)"""
+    import glob
+    ds = glob.glob(os.path.join(os.path.dirname(os.path.dirname(os.path.abspath(__file__))), ".cache", "facts", f"*-{config}"))
+    return max(ds, key=os.path.getmtime)
